@@ -79,7 +79,7 @@ def run(rep, tier, seed, model_ok=True, effort=1):
     n = (350 if tier == "quick" else 6000) * effort
     rep.rule = ("seeded (grammar pattern, valid current version, flags, date) for the increment path and, per case, --set-version targets of every kind "
                 "(greater, equal, lower, malformed, malformed suffix, PEP 440-equal but textually different, zero padded): `bumpver test` via CliRunner, "
-                "plus `bumpver update [--dry]` in temporary projects; oracle: full match + strictly greater on exit 0; non-trivial = distinct accepted case")
+                "plus `bumpver update [--dry]` in temporary projects, and `update` against fake-git tag sets (fetch on, off and failing; config behind, equal to and ahead of the newest tag; --set-version below and above it); oracle: full match + strictly greater than the version started from on exit 0, nothing changed otherwise; non-trivial = distinct accepted case")
     today = v2gen.ordinal(impl.PINNED_TODAY)
     items, meta = [], []
     # corpus: tag changes without a numeric bump (the order of dev / pre / final / post decides)
